@@ -283,9 +283,9 @@ type pinterp struct {
 	objects          bool            // model struct objects, maps and slices of arbitrary values (the interpreter tables of the Run plumbing)
 	hdrCache         map[*ssa.Function]bool
 	listReads        int
-	nextFree         []pval // values of the free variables of the closure about to be run
-	extModel         func(key string, call *ssa.Call, operands []pval, h *pheap) ([]pval, bool) // the client answers a gorgonia call
-	cover            *pcover // when set: every block the walk enters is recorded (shared by the cells of one table)
+	nextFree         []pval                                                                                             // values of the free variables of the closure about to be run
+	extModel         func(key string, call *ssa.Call, operands []pval, h *pheap) ([]pval, bool)                         // the client answers a gorgonia call
+	cover            *pcover                                                                                            // when set: every block the walk enters is recorded (shared by the cells of one table)
 	intercept        func(fn *ssa.Function, call *ssa.Call, callee *ssa.Function, args []pval, h *pheap) ([]pval, bool) // the client answers a library call instead of the walk
 }
 
@@ -1409,6 +1409,10 @@ func (p *pinterp) call(fn *ssa.Function, fr *pframe, x *ssa.Call, depth int) {
 				if l := fr.heap.lists[rv.j]; l != nil {
 					fr.env[x] = pval{k: pInt, i: int64(len(l))}
 				}
+			case "IsScalar":
+				if l := fr.heap.lists[rv.j]; l != nil {
+					fr.env[x] = pval{k: pBool, b: len(l) == 0}
+				}
 			case "Materialize":
 				fr.env[x] = rv // the same elements in a tensor of their own: shape and content as they are
 			case "Slice":
@@ -1537,6 +1541,21 @@ func (p *pinterp) call(fn *ssa.Function, fr *pframe, x *ssa.Call, depth int) {
 				}
 			} else if fr.heap.poison[rv.i] {
 				fr.env[x] = pval{k: pPoison}
+			}
+			return
+		}
+		if name == "IsScalar" && (rv.k == pTensor || rv.k == pShape) && p.rankOf != nil {
+			if r, ok := p.rankOf(rv.i); ok {
+				fr.env[x] = pval{k: pBool, b: r == 0}
+			}
+			return
+		}
+		if rv.k == pTensor && name == "Slice" {
+			// a view of an input: as for a tensor with that shape
+			if l, ok := p.shapeList(rv.i); ok {
+				if res, ok := p.sliceModel(fr, pval{k: pShaped, i: rv.i, j: fr.heap.alloc(l).i}, cc); ok {
+					fr.tuples[x] = res
+				}
 			}
 			return
 		}
@@ -1870,6 +1889,29 @@ func (p *pinterp) call(fn *ssa.Function, fr *pframe, x *ssa.Call, depth int) {
 			return
 		}
 	}
+	if fnPkgPath(sc) == "reflect" {
+		switch sc.Name() {
+		case "ValueOf":
+			if len(cc.Args) == 1 {
+				if v := p.val(fr, cc.Args[0]); v.k != pUnknown {
+					fr.env[x] = v
+				}
+			}
+		case "Len":
+			if len(cc.Args) == 1 {
+				switch v := p.val(fr, cc.Args[0]); v.k {
+				case pList:
+					if l := fr.heap.lists[v.i]; l != nil {
+						fr.env[x] = pval{k: pInt, i: int64(len(l))}
+					}
+				case pNil:
+					// a typed nil slice behind the interface (what a decoder returns for an empty payload)
+					fr.env[x] = pval{k: pInt, i: 0}
+				}
+			}
+		}
+		return
+	}
 	if (fnPkgPath(sc) == "fmt" || fnPkgPath(sc) == "errors") && sc.Signature.Results().Len() == 1 && isErrorType(sc.Signature.Results().At(0).Type()) {
 		fr.env[x] = pval{k: pNonNil}
 		return
@@ -2010,6 +2052,9 @@ func (p *pinterp) call(fn *ssa.Function, fr *pframe, x *ssa.Call, depth int) {
 	}
 	if p.inInit && sc.Name() == "init" && sc.Signature.Recv() == nil && !p.initPkgs[fnPkgPath(sc)] {
 		return // the initialiser of another package: not part of what is being set up
+	}
+	if p.inInit && sc.Signature.Recv() == nil && strings.HasSuffix(p.c.fileOf(sc.Pos()), ".pb.go") {
+		return // protobuf's generated registration code: sets up descriptors, none of the tables the walk reads
 	}
 	if !(isLibFn(sc) || isControlFn(sc)) || len(sc.Blocks) == 0 || depth >= p.maxDepth() {
 		args := make([]pval, len(cc.Args))
@@ -2439,6 +2484,17 @@ func (p *pinterp) sliceModel(fr *pframe, t pval, cc *ssa.CallCommon) ([]pval, bo
 			continue
 		}
 		nshape = append(nshape, pval{k: pInt, i: e})
+	}
+	{
+		// gorgonia: a view of one element in all is a scalar, whatever unsliced unit axes there are
+		total, anySliced := int64(1), false
+		for i := range shape {
+			total *= rs[i].hi - rs[i].lo
+			anySliced = anySliced || rs[i].sliced
+		}
+		if total == 1 && anySliced {
+			nshape = nil
+		}
 	}
 	if nshape == nil {
 		nshape = []pval{}
